@@ -170,7 +170,7 @@ class PipeRelay(Relay):
         """
         error_msg = stdout.rstrip() or stderr.rstrip() or 'Delivery failed'
         if isinstance(error_msg, bytes):
-            error_msg = error_msg.decode('utf-8')
+            error_msg = error_msg.decode('utf-8', 'replace')
         if self._permanent_error_pattern.match(error_msg):
             reply = Reply('550', error_msg)
             raise PermanentRelayError(error_msg, reply)
@@ -209,6 +209,10 @@ class MaildropRelay(PipeRelay):
         super(MaildropRelay, self).__init__(args, timeout)
 
     def raise_error(self, status, stdout, stderr):
+        if isinstance(stdout, bytes):
+            stdout = stdout.decode('utf-8', 'replace')
+        if isinstance(stderr, bytes):
+            stderr = stderr.decode('utf-8', 'replace')
         error_msg = 'Delivery failed'
         if stdout.startswith('maildrop: '):
             error_msg = stdout[10:].rstrip()
@@ -249,6 +253,8 @@ class DovecotLdaRelay(PipeRelay):
 
     def raise_error(self, status, stdout, stderr):
         error_msg = stdout.rstrip() or stderr.rstrip() or 'LDA delivery failed'
+        if isinstance(error_msg, bytes):
+            error_msg = error_msg.decode('utf-8', 'replace')
         if status == self.EX_TEMPFAIL:
             reply = Reply('450', error_msg)
             raise TransientRelayError(error_msg, reply)
